@@ -12,6 +12,17 @@ BASE_NOTE = (
 
 # property -> (category, text, technique, design_ref, extra note)
 CLAIMS = {
+    "C14": (
+        "proof",
+        "Contracts on the real scope machinery: ReadOnlyChainMap.__getitem__ returns the first map's binding (KeyError iff unbound everywhere; chain lengths 1..5 with arbitrary maps), push/pop; "
+        "RenderContext.__init__ builds the chain [locals, globals, builtin, counters]; extend() makes its namespace innermost inside the block and restores the scope on normal, raising and depth-error exits; "
+        "assign() writes exactly locals[key] whatever block namespaces are open (frame over locals/globals/counters/block namespaces); BoundTemplate.make_globals orders render args > front matter > template globals; "
+        "Environment.make_globals lets template globals override environment globals in a new dict; increment/decrement touch only the counters namespace; BuiltIn knows exactly now/today. "
+        "A bounded contract check over all 128 binder subsets and 28 path forms stands in for the tag layer.",
+        "contract-based deductive verification (frame conditions over map views, z3 arrays/lambdas) + bounded contract check",
+        "DESIGN.md section 4 C14",
+        "",
+    ),
     "C06": (
         "proof",
         "The iteration product M(ctx)=prod(loop.length)*carry is carried by contracts on the real RenderContext.raise_for_loop_limit (returns only if M*n<=limit, raises iff over), "
